@@ -198,7 +198,8 @@ def run(chk: common.Check):
         rule=("obligations = theorems of coq/props/C15.v (all determinant lists and labels; all states). Trace validation: runs with coupled "
               "groups incl. relabelled insertion-code twins (equal labels, several determinants towards one label); OSwap operations are "
               "reproduced by the model. Search: coupling analysis off vs on (pKa and determinant multisets), symmetry of the relation, "
-              "star <-> partner per conformation. distinct = (case, number of swaps)"),
+              "star <-> partner per conformation. distinct = (case, number of swaps)"
+              " Added in rounds 4-6: the pKa window of the pair screen moved across pairs, a penalised chain-start side chain coupled elsewhere, the star with and without remove_penalised_group, the averaged conformation, every 0/1 switch of the current parameter file toggled."),
         assumptions=["pKa equality is over R; the float sum after swap/unswap may differ in the last bit because list order changes (search tolerance 1e-9)",
                      "display mode (-d) keeps the swapped state by design and is outside the claim"],
         trusted=["tools/vlib/detstrace.py recorder", "model/Dets.v validated by replay", "stdlib real axioms"])
